@@ -13,7 +13,7 @@ ATOMS = ["=", "==", "!", "!=", "+", "++", "-", "--", "->", "*", "/", "%", ">", "
          ";", ",", "@", "(", ")", "{", "}", "[", "]",
          "x", "_a1", "int", "intx", "measure", "qubit", "true", "null", "echo", "shots", "classy", "destroy",
          "0", "7", "42", "1.5f", "3f", "12L", "0b", "1b", "10", "007",
-         "\"s\"", "\"\"", "\"a b\"", "\"a\nb\"", "\"//x\"", "\"'\"", "'c'", "'\n'", "'\"'", "' '",
+         "\"s\"", "\"\"", "\"a b\"", "\"a\nb\"", "\"\nab\"", "\"ab\n\"", "\"\n\"", "\"\n\n\"", "\"a\n\nb\n\"", "\"\r\n\"", "\"//x\"", "\"'\"", "'c'", "'\n'", "'\"'", "' '",
          "// c\n", "//\n", "// a // b\n", " ", "\t", "\n", "\r\n", "\x0b", "\x0c", "  \n  ", "#", "$", "\\", "`", "\x80", "\xff"]
 BAD = ["\"abc", "'a", "'", "1.5", "1.", "2b", "12b", "1.5e3", "\"a\nb", "'ab'", "''"]
 
